@@ -153,43 +153,46 @@ theorem mbox_endLoop (T : Target) (r : Reason) (now : Nat) : (T.endLoop r now).m
 theorem hmap_sub (T : Target) : (T.handled.map (fun h => (h.1, h.2.1))).Sublist T.ids :=
   List.sublist_append_right _ _
 
-theorem moved_nodup (T : Target) (now : Nat) (h : T.ids.Nodup) :
-    ((T.handled ++ T.mbox.map (fun m => (m.1, m.2, now))).map (fun h => (h.1, h.2.1))).Nodup := by
-  have e : (T.mbox.map (fun m => (m.1, m.2, now))).map (fun h => (h.1, h.2.1)) = T.mbox := by
-    rw [List.map_map]
-    have : ((fun h : Nat × Nat × Nat => (h.1, h.2.1)) ∘ fun m : Nat × Nat => (m.1, m.2, now)) = id := by
-      funext m; rfl
-    rw [this, List.map_id]
-  rw [List.map_append, e]
-  exact List.Perm.nodup List.perm_append_comm h
+theorem untag (l : List (Nat × Nat)) (now : Nat) :
+    (l.map (fun m => (m.1, m.2, now))).map (fun h => (h.1, h.2.1)) = l := by
+  rw [List.map_map]
+  have : ((fun h : Nat × Nat × Nat => (h.1, h.2.1)) ∘ fun m : Nat × Nat => (m.1, m.2, now)) = id := by
+    funext m; rfl
+  rw [this, List.map_id]
+
+theorem moved_nodup (T : Target) (now : Nat) (h : T.ids.Nodup) (l : List (Nat × Nat)) (hl : l.Sublist T.mbox) :
+    ((T.handled ++ l.map (fun m => (m.1, m.2, now))).map (fun h => (h.1, h.2.1))).Nodup := by
+  rw [List.map_append, untag]
+  have h2 : (T.handled.map (fun h => (h.1, h.2.1)) ++ T.mbox).Nodup := List.Perm.nodup List.perm_append_comm h
+  exact (List.Sublist.append_left hl _).nodup h2
 
 theorem run_cases (T : Target) (now : Nat) :
-    T.run now = T ∨ ((T.run now).mbox = [] ∧ ((T.run now).handled = T.handled ∨
-      (T.run now).handled = T.handled ++ T.mbox.map (fun m => (m.1, m.2, now)))) := by
+    T.run now = T ∨ ((T.run now).mbox = [] ∧ ∃ l : List (Nat × Nat), l.Sublist T.mbox ∧
+      (T.run now).handled = T.handled ++ l.map (fun m => (m.1, m.2, now))) := by
   unfold Target.run
   split
   · exact .inl rfl
   split
-  · exact .inr ⟨rfl, .inl rfl⟩
+  · exact .inr ⟨rfl, [], List.nil_sublist _, by simp [Target.exitWith]⟩
   split
   · exact .inl rfl
   split
-  · right; unfold Target.endLoop; split <;> exact ⟨rfl, .inl rfl⟩
+  · right; unfold Target.endLoop; split <;> exact ⟨rfl, [], List.nil_sublist _, by simp [Target.exitWith]⟩
   · right
-    dsimp only
     split
-    · unfold Target.endLoop; split <;> exact ⟨rfl, .inr rfl⟩
-    · exact ⟨rfl, .inr rfl⟩
+    · exact ⟨rfl, _, List.take_sublist _ _, rfl⟩
+    · dsimp only
+      split
+      · unfold Target.endLoop; split <;> exact ⟨rfl, _, List.Sublist.refl _, rfl⟩
+      · exact ⟨rfl, _, List.Sublist.refl _, rfl⟩
 
 theorem DInv.run {T : Target} (now : Nat) (hn : T.ids.Nodup) (hx : T.exit ≠ none → T.mbox = []) :
     (T.run now).ids.Nodup ∧ ((T.run now).exit ≠ none → (T.run now).mbox = []) := by
   have hsub : (T.handled.map (fun h => (h.1, h.2.1))).Nodup := (hmap_sub T).nodup hn
-  rcases run_cases T now with e | ⟨em, eh | eh⟩
+  rcases run_cases T now with e | ⟨em, l, hl, eh⟩
   · rw [e]; exact ⟨hn, hx⟩
   · refine ⟨?_, fun _ => em⟩
-    unfold Target.ids; rw [em, eh, List.nil_append]; exact hsub
-  · refine ⟨?_, fun _ => em⟩
-    unfold Target.ids; rw [em, eh, List.nil_append]; exact moved_nodup T now hn
+    unfold Target.ids; rw [em, eh, List.nil_append]; exact moved_nodup T now hn l hl
 
 theorem DInv.step {s : State} (h : DInv s) (hi : Inv s) (op : Op) : DInv (Timers.step s op) := by
   cases op with
@@ -198,6 +201,11 @@ theorem DInv.step {s : State} (h : DInv s) (hi : Inv s) (op : Op) : DInv (Timers
   | tick d => exact ⟨h.nodup, h.exit_mbox⟩
   | mark => exact ⟨h.nodup, h.exit_mbox⟩
   | dropHandle i => exact ⟨h.nodup, h.exit_mbox⟩
+  | fail =>
+    have e : Timers.step s .fail = { s with target := s.target.poisonMsg } := rfl
+    rw [e]
+    unfold Target.poisonMsg
+    split <;> exact ⟨h.nodup, h.exit_mbox⟩
   | abort i =>
     cases hτ : s.timers[i]? with
     | none => rw [step_abort_none hτ]; exact h
